@@ -1025,6 +1025,35 @@ def eval_c11(batches, tier, seed, known, info):
             m = model_emit(v)
             if sorted(m.get('funcs') or []) != sorted(v['static']['funcs']):
                 out['tie_breaks'].append({'variant': v['dir'], 'diff': 'model funcs differ'})
+        # directed: an EMBEDDED field excluded as `Message.Field` where the embedding message occurs below a root (the key is the
+        # one of the immediate message, whatever the path of the occurrence): its children vanish at every occurrence
+        nested_types = {o[2]['typeName'] for o in occ if o[2]['type'] == 'message'}
+        emb = [(m_, f) for m_ in b['case']['request']['file']['messages'] if m_['name'] in nested_types
+               for f in m_['fields'] if f.get('embed') and (m_['name'] + '.' + f['name']) not in excluded
+               and any((m_['name'] + '.' + g['name']) not in excluded and not g.get('embed') for g in m_['fields'])]
+        for m_, f in emb[:1]:
+            key = m_['name'] + '.' + f['name']
+            c = copy.deepcopy(b['case'])
+            c['yaml']['excludeFields'] = (c['yaml'].get('excludeFields') or []) + [key]
+            v = run_variant(info, 'c11exclembed', c)
+            out['evaluations'] += 1
+            nkey['embedded_field_typeName'] = nkey.get('embedded_field_typeName', 0) + 1
+            if not v['static'] or v['static'].get('parseError'):
+                out['violations'].append({'kind': 'no output with an excluded embedded field', 'variant': v['dir'], 'stderr': (v['plugin'] or {}).get('stderr', '')[-200:]})
+                continue
+            fa, fb = {}, {}
+            for t, tree in base['static']['schemas'].items():
+                fa.update(flat_attrs(tree, t))
+            for t, tree in v['static']['schemas'].items():
+                fb.update(flat_attrs(tree, t))
+            sub = find_msg(b['case'], f['typeName'])
+            if sub and sub.get('fields') and set(fa) == set(fb):
+                out['violations'].append({'kind': 'exclusion of an embedded field (Message.Field key, nested message) removed nothing', 'variant': v['dir'], 'key': key})
+            if set(fb) - set(fa):
+                out['violations'].append({'kind': 'exclusion added attributes', 'variant': v['dir'], 'extra': sorted(set(fb) - set(fa))[:5]})
+            kept_changed = [p_ for p_ in fb if p_ in fa and fa[p_] != fb[p_]]
+            if kept_changed:
+                out['violations'].append({'kind': 'exclusion changed the schema entry of a remaining field', 'variant': v['dir'], 'attrs': kept_changed[:5]})
         if len(out['samples']) < 2:
             out['samples'].append({'batch': b['dir'], 'occurrences': len(occ)})
     out['coverage'] = {'keys_by_form': nkey, 'traces_validated_against_impl': out['evaluations'] - len(out['violations'])}
@@ -1148,6 +1177,52 @@ def eval_c17(batches, tier, seed, known, info):
             if m:
                 out['violations'].append({'kind': 'the generated code calls hook functions that do not follow the suffix rule', 'batch': b['dir'],
                                           'undefined': sorted(set(m)), 'hooks_provided': [h['Suffix'] for h in (b['meta'] or {}).get('Hooks', [])]})
+    # delegation, static: a field made custom by `custom_types` whose ordinary Go type is a POINTER (a nullable message) is handed to
+    # the hooks and nothing else touches it - the generated CopyFrom contains the hook call with `&obj.<Field>` and no assignment
+    # to `obj.<Field>` of its own (plugin-only variant: the harness has no executable hooks for message-typed custom fields)
+    rnd17 = random.Random(seed + 17)
+    for b in batches[: (4 if tier == 'quick' else len(batches))]:
+        if not b['static'] or b['static'].get('parseError') or b['case'].get('yamlState') != 'ok':
+            continue
+        y = b['case']['yaml']
+        excl = set(y.get('excludeFields') or [])
+        cands = []
+        for r in roots_of(b['case']):
+            m_ = find_msg(b['case'], r)
+            for f in (m_ or {}).get('fields', []):
+                if (f['type'] == 'message' and f['card'] == 'single' and f.get('nullable') != 'false' and not f.get('embed') and f.get('oneof', -1) < 0
+                        and (r + '.' + f['name']) not in excl and not any(kv['k'] == r + '.' + f['name'] for kv in (y.get('customTypes') or []))):
+                    cands.append((r, f))
+        if not cands:
+            continue
+        r, f = rnd17.choice(cands)
+        c = copy.deepcopy(b['case'])
+        c['yaml']['customTypes'] = (c['yaml'].get('customTypes') or []) + [{'k': r + '.' + f['name'], 'v': 'CfgNullableMsgHook'}]
+        c['yaml']['suffixes'] = (c['yaml'].get('suffixes') or []) + [{'k': 'CfgNullableMsgHook', 'v': 'SfxCfgNullableMsg'}]
+        v = run_variant(info, 'c17ptrcustom', c)
+        out['evaluations'] += 1
+        st = v['static']
+        if not st or st.get('parseError'):
+            out['violations'].append({'kind': 'no parsable output with a custom type on a nullable message field', 'variant': v['dir'],
+                                      'stderr': (v['plugin'] or {}).get('stderr', '')[-300:]})
+            continue
+        fn = f'Copy{r}FromTerraform'
+        calls = [c_ for c_ in (st.get('hookCalls') or {}).get(fn, []) if c_.startswith('CopyFromSfxCfgNullableMsg(')]
+        if len(calls) != 1:
+            out['violations'].append({'kind': 'a custom field (nullable message) is not handed to its CopyFrom hook exactly once', 'variant': v['dir'],
+                                      'field': r + '.' + f['name'], 'calls': calls})
+            continue
+        mm = re.search(r'&obj\.(\w+)\)', calls[0])
+        if not mm:
+            out['violations'].append({'kind': 'the CopyFrom hook of a custom field does not receive the address of the field', 'variant': v['dir'], 'call': calls[0]})
+            continue
+        writes = [w for w in (st.get('objWrites') or {}).get(fn, []) if w == 'obj.' + mm.group(1)]
+        if writes:
+            out['violations'].append({'kind': 'the generated CopyFrom assigns a custom-type field itself (the field belongs to the hook alone)', 'variant': v['dir'],
+                                      'field': r + '.' + f['name'], 'go_field': mm.group(1), 'assignments': len(writes)})
+        tcalls = [c_ for c_ in (st.get('hookCalls') or {}).get(f'Copy{r}ToTerraform', []) if c_.startswith('CopyToSfxCfgNullableMsg(')]
+        if len(tcalls) != 1:
+            out['violations'].append({'kind': 'a custom field (nullable message) is not handed to its CopyTo hook exactly once', 'variant': v['dir'], 'calls': tcalls})
     # delegation, observed on the implementation's own call log: a CopyFrom / CopyTo call of a type hands EVERY custom attribute of
     # its top level (fields of embedded messages included) to the hook named by the suffix rule - whatever the attribute holds
     # (null, unknown, missing) and whatever the target holds - and to no other function
